@@ -5,4 +5,11 @@ import SJ.Props.C07
 #print axioms SJ.Props.C07.c07_fast_path_exact
 #print axioms SJ.Props.C07.c07_into_float_rne
 #print axioms SJ.Props.C07.c07_bhcomp_exact
-#print axioms SJ.Props.C07.c07_correct_partial
+#print axioms SJ.Props.C07.c07_moderate_path_sound
+#print axioms SJ.Props.C07.c07_parse_exact
+#print axioms SJ.Props.C07.c07_correct
+#print axioms SJ.Props.C07.c07_nearest_even
+#print axioms SJ.Props.C07.c07_underflow
+#print axioms SJ.Props.C07.c07_other_literals
+#print axioms SJ.Props.C07.c07_all_sources
+#print axioms SJ.Props.C07.c07_roundtrip
